@@ -111,13 +111,16 @@ pub trait Walker: Visitor {
             },
             Expression::FuncOp(def) => match def {
                 FuncOpDef::Reduce(def) => {
+                    self.walk_expression(def.func.as_mut());
                     self.walk_expression(def.target.as_mut());
                     self.walk_expression(def.acc.as_mut())
                 }
                 FuncOpDef::Map(def) => {
+                    self.walk_expression(def.func.as_mut());
                     self.walk_expression(def.target.as_mut());
                 }
                 FuncOpDef::Filter(def) => {
+                    self.walk_expression(def.func.as_mut());
                     self.walk_expression(def.target.as_mut());
                 }
             },
@@ -131,6 +134,9 @@ pub trait Walker: Visitor {
             Expression::Func(def) => self.walk_expression(def.fields.as_mut()),
             Expression::Module(def) => {
                 self.walk_fieldset(&mut def.arg_set);
+                if let Some(ref mut out_expr) = def.out_expr {
+                    self.walk_expression(out_expr.as_mut());
+                }
                 for stmt in def.statements.iter_mut() {
                     self.walk_statement(stmt);
                 }
@@ -168,6 +174,7 @@ pub trait Walker: Visitor {
             }
             Expression::Fail(f) => {
                 self.visit_fail(f);
+                self.walk_expression(f.message.as_mut());
                 self.leave_fail();
             }
             Expression::Not(def) => {
